@@ -8,7 +8,7 @@ use serde_json::{json, Value};
 use crate::engine::{catch, h64, par_range, run_generated, Ctx, Stats};
 use crate::oracle::page::{data_len, pixel_mask, read_pixel, total_len, REAL_SIZES};
 
-pub const RULE: &str = "cases are (width, height, origin, operation sequence): sizes from an exhaustive box (0..=24 x 0..=26 quick, 0..=48 x 0..=40 thorough), the 11 real sign sizes and 1x255, 255x1, 300x9, 1000x64, 2x257, 3x300, 1x1030 (taller than 256 rows); origin Page::new or Page::from_bytes over a borrowed buffer with generated header/pixel/padding bytes; sequences of 0..40 Set/SetAll/Get with ~25 % of coordinates just outside the bounds (x=w, y=h, +1, next multiple of 8, u32::MAX); judged after every step against a boolean grid and the initial bytes (every pixel, id, dimensions, length, header, padding; out-of-bounds must panic and leave the bytes identical). An exhaustive sweep sets/clears every coordinate of [0,w]x[0,h] on all-off and all-on pages of every box size. Non-trivial = a page with w*h > 0 whose sequence has an effective set and an out-of-bounds probe at the exact edge, or whose height is not a multiple of 8; distinct by hash of the case (sweep: by construction)";
+pub const RULE: &str = "cases are (width, height, origin, operation sequence): sizes from an exhaustive box (0..=24 x 0..=26 quick, 0..=48 x 0..=40 thorough), the 11 real sign sizes and 1x255, 255x1, 300x9, 1000x64, 2x257, 3x300, 1x1030, 3x2056, 2x4100, 1x65544, 1x524296, 65537x3, 70000x1 (more than 256 / 2048 / 65536 rows or columns); origin Page::new or Page::from_bytes over a borrowed buffer with generated header/pixel/padding bytes; sequences of 0..40 Set/SetAll/Get with ~25 % of coordinates just outside the bounds (x=w, y=h, +1, next multiple of 8, u32::MAX), and a systematic family of far-outside coordinates (2^k+d, ceil(j*2^32/s)+d) on the real sizes; judged after every step against a boolean grid and the initial bytes (every pixel, id, dimensions, length, header, padding; out-of-bounds must panic and leave the bytes identical). An exhaustive sweep sets/clears every coordinate of [0,w]x[0,h] on all-off and all-on pages of every box size. Non-trivial = a page with w*h > 0 whose sequence has an effective set and an out-of-bounds probe at the exact edge, or whose height is not a multiple of 8; distinct by hash of the case (sweep: by construction)";
 pub const ASSUMPTIONS: &[&str] = &[
     "initial pixel values of a page built over raw bytes are read with the documented layout (byte 4 + x*ceil(h/8) + y/8, bit y%8)",
     "the unused high bits of a column's last byte are not constrained for in-bounds operations (the statement is silent and set_all_pixels fills whole bytes)",
@@ -301,13 +301,27 @@ pub fn run(ctx: &Ctx) {
 
     // the real sizes and the large ones: every edge coordinate
     let mut sizes: Vec<(u32, u32)> = REAL_SIZES.to_vec();
-    sizes.extend_from_slice(&[(1, 255), (255, 1), (300, 9), (1000, 64), (2, 256), (2, 257), (3, 300), (1, 1030)]);
+    // (incl. pages with more than 256, 2048, 65536 rows or columns and more than 65536 bytes per column: where a row or
+    // byte index squeezed into a narrower integer would alias)
+    sizes.extend_from_slice(&[(1, 255), (255, 1), (300, 9), (1000, 64), (2, 256), (2, 257), (3, 300), (1, 1030), (3, 2056), (2, 4100), (1, 65544), (1, 524_296), (65_537, 3), (70_000, 1), (300, 257)]);
     par_range(ctx, "edges-real-sizes", sizes.len() as u64, |i, st| {
         let (w, h) = sizes[i as usize];
         let next8 = (h / 8 + 1) * 8;
         for seed in 0..2u64 {
             let mut ops = vec![];
-            for (x, y) in [(w, 0), (0, h), (w, h), (w - 1, h), (w, h - 1), (0, next8 - 1), (0, next8), (u32::MAX, 0), (0, u32::MAX), (w - 1, h - 1), (0, 0), (0, h / 2), (w - 1, h.min(257) - 1), (0, h.saturating_sub(256).min(h - 1))] {
+            let mut coords = vec![(w, 0), (0, h), (w, h), (w - 1, h), (w, h - 1), (0, next8 - 1), (0, next8), (u32::MAX, 0), (0, u32::MAX), (w - 1, h - 1), (0, 0), (0, h / 2), (w - 1, h.min(257) - 1), (0, h.saturating_sub(256).min(h - 1))];
+            // in-bounds coordinates just past every power of two (an index narrowed to 8/11/16/19 bits aliases there)
+            for k in 8..=19u32 {
+                if (1u32 << k) + 2 < h {
+                    coords.push((0, (1 << k) + 2));
+                    coords.push((w - 1, 1 << k));
+                }
+                if (1u32 << k) + 1 < w {
+                    coords.push(((1 << k) + 1, 0));
+                    coords.push((1 << k, h - 1));
+                }
+            }
+            for (x, y) in coords {
                 ops.push(Op::Set(x, y, true));
                 ops.push(Op::Get(x, y));
                 ops.push(Op::Set(x, y, false));
@@ -322,6 +336,70 @@ pub fn run(ctx: &Ctx) {
         Ok(())
     });
     ctx.part_done("edges-real-sizes", true, json!("11 real sizes + 4 large sizes x edge coordinates x new/borrowed"));
+
+    // far-outside coordinates: values whose product with the column stride, or whose narrowing to fewer bits, lands back
+    // inside the page (x = 2^k + d, x = ceil(j * 2^32 / s) + d for every small stride s, the same for y, u32::MAX - d).
+    // All are out of bounds: each access must panic and leave the page untouched.
+    let mut far_sizes: Vec<(u32, u32)> = REAL_SIZES.to_vec();
+    far_sizes.extend_from_slice(&[(2, 9), (3, 17), (5, 24), (1, 255), (7, 33), (300, 9), (4, 8), (9, 1)]);
+    par_range(ctx, "far-outside-coordinates", far_sizes.len() as u64, |i, st| {
+        let (w, h) = far_sizes[i as usize];
+        let mut xs: Vec<u32> = vec![];
+        let mut ys: Vec<u32> = vec![];
+        for k in 3..=31u32 {
+            for d in [0, 1, w - 1] {
+                xs.push((1u32 << k).wrapping_add(d));
+            }
+            for d in [0, 1, h - 1, 7, 8] {
+                ys.push((1u32 << k).wrapping_add(d));
+            }
+        }
+        for sdiv in 2..=40u64 {
+            for j in 1..sdiv {
+                let base = ((j << 32) + sdiv - 1) / sdiv;
+                for d in [0u64, 1] {
+                    xs.push((base + d) as u32);
+                    ys.push(((base + d) as u32) & !7);
+                    ys.push((base + d) as u32);
+                }
+            }
+        }
+        for d in 0..4 {
+            xs.push(u32::MAX - d);
+            ys.push(u32::MAX - d);
+        }
+        xs.retain(|&x| x >= w);
+        ys.retain(|&y| y >= h);
+        xs.sort();
+        xs.dedup();
+        ys.sort();
+        ys.dedup();
+        let mut coords: Vec<(u32, u32)> = vec![];
+        for &x in &xs {
+            for y in [0, 3.min(h - 1), h - 1] {
+                coords.push((x, y));
+            }
+        }
+        for &y in &ys {
+            for x in [0, w - 1] {
+                coords.push((x, y));
+            }
+        }
+        for (n, chunk) in coords.chunks(24).enumerate() {
+            let mut ops = vec![];
+            for &(x, y) in chunk {
+                ops.push(Op::Set(x, y, true));
+                ops.push(Op::Get(x, y));
+                ops.push(Op::Set(x, y, false));
+            }
+            let origin = if n % 2 == 0 { Origin::Borrowed { seed: i * 131 + n as u64 } } else { Origin::New { id: n as u8 } };
+            let c = PageCase { w, h, origin, ops };
+            check_page(&c, st).map_err(|m| (serde_json::to_value(&c).unwrap(), m))?;
+        }
+        st.nontrivial_enumerated(coords.len() as u64);
+        Ok(())
+    });
+    ctx.part_done("far-outside-coordinates", true, json!({"sizes": far_sizes.len(), "what": "x and y in {2^k+d, ceil(j*2^32/s)+d for s<=40, u32::MAX-d}, all outside the page: each set/get must panic and change nothing"}));
 
     // set_all_pixels as the FIRST call on a borrowed page that is almost uniform (for every fill / value / flip position class)
     let mut sparse: Vec<PageCase> = vec![];
